@@ -81,7 +81,13 @@ func c09Replay(run *evid.Run, mu *sync.Mutex, evals, nontrivial *int) {
 			for _, port := range ports {
 				st, err := present(port)
 				if err != nil || st == 401 {
-					evid.Fatal("replay %+v: the fresh token was refused on the %s port (status %d, %v)", c, port, st, err)
+					// a precondition of this case, not its subject; fatal only when
+					// nothing else has been reported (a broken verifier refuses
+					// fresh tokens too, and that is reported by the main matrix)
+					if run.Violations() == 0 {
+						evid.Fatal("replay %+v: the fresh token was refused on the %s port (status %d, %v)", c, port, st, err)
+					}
+					return
 				}
 			}
 			time.Sleep(time.Until(expires.Add(1200 * time.Millisecond)))
